@@ -5,7 +5,7 @@
 (* logarithm the Pairing specification computes, sum of a_i.b_i; a single     *)
 (* pairing is the identity of Gt iff one of its arguments is the identity;    *)
 (* the target group's generator has order r.                                  *)
-EXTENDS Integers, Tower, Json, IOUtils, TLC
+EXTENDS Integers, AtePairing, Json, IOUtils, TLC
 
 Rec == ndJsonDeserialize(IOEnv.TRACE)
 VARIABLE l
@@ -61,13 +61,24 @@ GtFOK(e) ==
        [] e.op = "mul" -> e.out = DPowI(x, e.x.scalar, T)
        [] e.op = "final_exp" -> e.out = DPowI(x, MulInt(HardExp(T, r), FinalExpC(e.engine)), T)
 
+\* ---- the pairing itself: the implementation's e(P, Q), for P and Q given by their coordinates, is the reduced optimal ate
+\* pairing of AtePairing.tla raised to the fixed power FinalExpC (the same constant as in final_exp above)
+PairPtOK(e) ==
+  LET c == PairingOf(e.engine)
+      P == [id |-> e.p.id, x |-> e.p.x, y |-> e.p.y]
+      Q == [id |-> e.q.id, x |-> e.q.x, y |-> e.q.y]
+  IN /\ OnCurve(c.g1, P) /\ OnCurve2(c.g2, Q)
+     /\ e.out = (IF P.id \/ Q.id THEN DOne
+                 ELSE DPowI(Miller(c, P, Q), MulInt(FullExp(c), FinalExpC(e.engine)), c.T))
+
 TInitL == l = 1
+TPairPt == l <= Len(Rec) /\ Ev.ev = "PairPt" /\ PairPtOK(Ev) /\ l' = l + 1
 TPairML == l <= Len(Rec) /\ Ev.ev = "PairML" /\ PairMLOK(Ev) /\ l' = l + 1
 TGtF == l <= Len(Rec) /\ Ev.ev = "GtF" /\ GtFOK(Ev) /\ l' = l + 1
 THeader == l <= Len(Rec) /\ Ev.ev = "header" /\ l' = l + 1
 TGt == l <= Len(Rec) /\ Ev.ev = "Gt" /\ GtOK(Ev) /\ l' = l + 1
 TPair == l <= Len(Rec) /\ Ev.ev = "Pair" /\ PairOK(Ev) /\ l' = l + 1
-TraceSpec == TInitL /\ [][THeader \/ TGt \/ TPair \/ TPairML \/ TGtF]_l
+TraceSpec == TInitL /\ [][THeader \/ TGt \/ TPair \/ TPairML \/ TGtF \/ TPairPt]_l
 
 TraceAccepted ==
   LET d == TLCGet("stats").diameter IN
